@@ -258,6 +258,18 @@ def run_check(mod, tier: str, seed: int) -> int:
         print(f"HARNESS-ERROR property={prop} a worker died or exceeded the per-case wall cap", flush=True)
         return 3
 
+    # A harness exception is never a verdict.  Before giving up (exit 2) the case is run once more, alone, in a fresh
+    # forked interpreter: only an exception that REPEATS there stops the check; a first-attempt-only one is reported and
+    # counted (evidence: harness_retries) and the second outcome is the case's outcome.
+    retried = 0
+    for j, o in enumerate(outcomes):
+        if o.get("harness_error"):
+            o2 = run_forked(mod.__name__, o["case"])
+            retried += 1
+            if not o2.get("harness_error"):
+                print(f"HARNESS-RETRY property={prop} case={o['case'].get('run_index')} first attempt raised {o['harness_error']}; "
+                      f"clean when run again alone", flush=True)
+                outcomes[j] = o2
     harness_errors = [o for o in outcomes if o.get("harness_error")]
     for o in harness_errors[:5]:
         print(f"HARNESS-ERROR property={prop} {o['harness_error']}\n{o.get('tb', '')}", flush=True)
@@ -358,6 +370,7 @@ def run_check(mod, tier: str, seed: int) -> int:
         "simulated_time_note": "aspire has no clock; simulated time is counted in seam events and SMC iterations",
         "runs_per_hour": round(n_eval / wall * 3600.0, 1) if wall > 0 else None,
         "known_findings_hit": known_hits,
+        "harness_retries": retried,
         "components": getattr(mod, "COMPONENTS", {}),
         "exhaustive": bool(agg.pop("exhaustive", False)),
     }
